@@ -8,6 +8,8 @@ from concurrent.futures import ThreadPoolExecutor
 sys.path.insert(0, "/verif")
 from sa.selftest import make_copy
 ready = open("/verif/sa/rules/READY").read().split()
+if os.environ.get("VERIF_PROPS"):
+  ready = [p for p in ready if p in os.environ["VERIF_PROPS"].split()]
 args = [a for a in sys.argv[1:] if not a.startswith("--")]
 only_own = "--only-own" in sys.argv
 names = [n for n in sorted(os.listdir("/verif/seeded"))
@@ -31,7 +33,7 @@ def one(name):
         fired[prop] = sorted({l.split()[1] for l in q.stdout.splitlines() if l.startswith("FINDING")})
       elif q.returncode != 0:
         fired[prop] = ["ANALYSIS-ERROR"]
-    if not only_own:
+    if not only_own and not os.environ.get("VERIF_PROPS"):
       mp = os.path.join(d, "meta.json")
       meta = json.load(open(mp)) if os.path.exists(mp) else {}
       meta["detected_by"] = fired
